@@ -377,7 +377,6 @@ Definition lbl_buf := label_name_size.
 Definition directive_buf : N := 64.
 Definition mnemonic_buf : N := 64.
 Definition fname_buf : N := 256.
-Definition string_buf : N := 4096.
 Definition err_oob : N := 99.                          (* not a C error code: the C reads past the line buffer *)
 
 Definition or_flag (m : module) (bit : N) : module :=
@@ -385,7 +384,8 @@ Definition or_flag (m : module) (bit : N) : module :=
 
 Definition do_directive (st : astate) (d p : text) : astate + N :=
   if bytes_eqb d (B "string") then
-    match parse_quoted_string p string_buf with
+    (* the buffer is malloc'ed from the directive's own text: strlen(p) + 1 *)
+    match parse_quoted_string p (lenN p + 1) with
     | inl (s, _) => inl (set_mod st (fst (add_string (a_mod st) s)))
     | inr true => inr err_oob
     | inr false => inr asm_err_syntax end
@@ -564,7 +564,6 @@ Fixpoint layout_okb (fs : list fent) (off : N) (total : N) : bool :=
 Definition all_strings (m : module) (chk : list byte -> bool) : bool := forallb chk (m_strings m).
 Definition all_codes (m : module) (chk : list byte -> bool) : bool := forallb (fun f => chk (code_of m f)) (m_funcs m).
 
-Definition wf_str_len (m : module) : bool := all_strings m (fun s => lenN s <? string_buf).
 Definition wf_str_bytes (m : module) : bool := all_strings m (forallb (fun c => c <? 256)).
 Definition wf_distinct (m : module) : bool := distinct_strs (m_strings m).
 Definition wf_fn_fields (m : module) : bool :=
@@ -578,7 +577,7 @@ Definition wf_code_patches (m : module) : bool := all_codes m code_patches.
 Definition wf_code_f64 (m : module) : bool := all_codes m code_f64.
 Definition wf_entry (m : module) : bool := (m_entry m <? 4294967296).
 Definition wf_conjuncts (m : module) : list bool :=
-  [ wf_str_len m; wf_str_bytes m; wf_distinct m; wf_fn_fields m; wf_fn_names m;
+  [ wf_str_bytes m; wf_distinct m; wf_fn_fields m; wf_fn_names m;
     wf_layout m; wf_code_bytes m; wf_code_decodes m; wf_code_patches m; wf_code_f64 m; wf_entry m ].
 Definition wf_moduleb (m : module) : bool := forallb (fun b => b) (wf_conjuncts m).
 
@@ -595,7 +594,7 @@ Definition code_checks (c : list byte) : list bool :=
 Definition wf_conjuncts_fast (m : module) : list bool :=
   let reps := map (fun f => code_checks (code_of m f)) (m_funcs m) in
   let col (k : nat) := forallb (fun r => nth k r true) reps in
-  [ wf_str_len m; wf_str_bytes m; wf_distinct m; wf_fn_fields m; wf_fn_names m;
+  [ wf_str_bytes m; wf_distinct m; wf_fn_fields m; wf_fn_names m;
     wf_layout m; wf_code_bytes m; col 0%nat; col 1%nat; col 2%nat; wf_entry m ].
 
 End WithTable.
